@@ -224,6 +224,19 @@ def run_case(ctx, case):
                               "html5lib.parse%s(treebuilder=%r, namespaceHTMLElements=%r): %s" % (
                                   "Fragment" if frag else "", kind, ns, canon.diff_text(res[(kind, ns)], f2, "HTMLParser", "module function")))
                 return
+    # documented defaults: no keyword at all = etree builder, namespaced HTML elements, scripting off, container "div"
+    if len(data) % 4 == 1 and not scr and (not frag or cont == "div"):
+        import html5lib
+        try:
+            t = html5lib.parseFragment(data) if frag else html5lib.parse(data)
+            ctx.count("defaults_compared")
+            if h5.canon_of(t, "etree") != res[("etree", True)]:
+                ctx.violation("defaults-differ-from-documented", case, "html5lib.parse%s(data) with no keyword differs from the explicit defaults: %s" % (
+                    "Fragment" if frag else "", canon.diff_text(res[("etree", True)], h5.canon_of(t, "etree"), "explicit", "defaults")))
+                return
+        except Exception as e:
+            ctx.violation("convenience-api-raised:" + type(e).__name__, case, "no-keyword call: %r" % (e,))
+            return
     interesting = any(k.split(".")[1] in ("insertBefore", "removeChild", "reparentChildren", "cloneNode",
                                           "insertText(before)") for k in _prim)
     ctx.case([data, frag, cont, scr], nontrivial=interesting)
